@@ -11,7 +11,12 @@ CFG = {
                   "a changed constant breaks it and every theorem. Tie on every run: real Hash/Hash128/HashString/Hash128String on every length of the tier, "
                   "random and structured data, all three back ends forced through the verif hook, sub-slice offsets 0..63, exact and extra capacity, "
                   "compared with Spec and Model evaluated inside Coq (vm_compute) and with the in-tree independent port internal/xxh3_raw; "
-                  "guard pages (PROT_NONE before/after, data read-only) for out-of-bounds loads and writes, all back ends.",
+                  "guard pages (PROT_NONE before/after, data read-only) for out-of-bounds loads and writes, all back ends. "
+                  "Besides random/structured data the tie runs a SECRET-RELATIVE stream (harness secretrel.go, ~11 700 inputs per quick run, ~500 of them through Coq, "
+                  "every disagreeing one added): for lengths of every class and every window XXH3 reads (8-byte words, the 4-byte words and single bytes of the short paths, "
+                  "stripe lanes of the long path) the window is set to (the secret word the SPEC pairs it with) XOR d, d in {0, 1, 0xff, 2^31, 2^32-1, 2^32, 2^63, all ones, "
+                  "small, high half zero, low half zero}, plus both operands of a fold special and every window secret-like; pairing and kSecret come from Spec.v, "
+                  "not from the code under test. This reaches operand values (0, < 2^32, multiples of 2^32 ...) that random data hits with probability ~2^-31.",
     "level_note": "No length class is left unproved for the Go-level code. NOT proved: the assembly back ends avx2_amd64.s / sse2_amd64.s are MODELLED as equal to "
                   "accumScalar and only tested to be so (every run: three-way differential on all lengths of the tier + guard pages); 'never modifies the bytes' has no "
                   "theorem beyond the model being a pure function (tested: read-only mapping + before/after comparison); alignment/capacity independence is by "
